@@ -684,7 +684,14 @@ impl<'a> Oracle<'a> {
                         }
                         return None;
                     }
-                    foreign(wt, w.op, "value")
+                    let x = foreign(wt, w.op, "value");
+                    // a version that should have been superseded by a delete: one cause, whatever version shows
+                    if let (Some((a, op, _)), Some(None)) = (&x, ev) {
+                        if a == "unexplained_read" && op.starts_with("stale_") {
+                            return self.explain_stale_initial(r, key, ev);
+                        }
+                    }
+                    x
                 }
             },
             None => {
@@ -781,7 +788,8 @@ impl<'a> Oracle<'a> {
                 Obs::Err(_) => {}
                 Obs::Keys(m) => {
                     for (id, ov) in m {
-                        let ev = exp.as_ref().map(|e| e.get(id).cloned());
+                        // after a lost update the row's value is undefined: only the order-independent rules apply
+                        let ev = if self.conflicted.contains(&(r.tab, *id)) { None } else { exp.as_ref().map(|e| e.get(id).cloned()) };
                         if let Some((anomaly, op, why)) = self.classify(r, (r.tab, *id), ov, ev.as_ref()) {
                             push(&anomaly, format!("C08/{}/{}/{}", anomaly, r.path.name(), op), json!({"reader_handle": rt.h, "reader_in_explicit_txn": rt.explicit, "table": tname(r.tab), "id": id, "observed": ov, "must_see": ev, "why": why}));
                         }
@@ -789,7 +797,7 @@ impl<'a> Oracle<'a> {
                 }
                 Obs::Count(n) => {
                     let Some(exp) = exp.as_ref() else { continue };
-                    if *n == exp.len() as i64 {
+                    if *n == exp.len() as i64 || self.conflicted.iter().any(|k| k.0 == r.tab) {
                         continue;
                     }
                     let d = *n - exp.len() as i64;
@@ -916,7 +924,49 @@ fn exercised(h: &Hist) -> bool {
 
 // ------------------------------------------------------------------------------------------------ running a case
 
-fn open_db(dir: &std::path::Path, tabs: &BTreeSet<u8>, wal: bool) -> Result<Database, String> {
+/// fresh database for a case: a template directory per table set is created once per worker process (and closed
+/// cleanly), every case works on a file copy of it opened with Database::open (far fewer fsyncs than CREATE ...)
+fn open_db(dir: &std::path::Path, tabs: &BTreeSet<u8>, wal: bool, sync_off: bool) -> Result<Database, String> {
+    if std::env::var("C08_NO_TEMPLATE").is_err() {
+        let tdir = dir.parent().unwrap().join(format!("template{}", tabs.len()));
+        if !tdir.join("turdb.meta").exists() {
+            let _ = std::fs::remove_dir_all(&tdir);
+            let db = create_db(&tdir, tabs, false)?;
+            drop(db);
+        }
+        copy_tree(&tdir, dir).map_err(|e| format!("copy template: {}", e))?;
+        let db = match catch(|| Database::open(dir)) {
+            Ok(Ok(d)) => d,
+            Ok(Err(e)) => return Err(format!("open: {:#}", e)),
+            Err(p) => return Err(format!("open panicked: {}", p)),
+        };
+        if wal {
+            exec(&db, "PRAGMA wal = ON").map_err(|e| format!("PRAGMA wal: {}", e))?;
+            if sync_off {
+                exec(&db, "PRAGMA synchronous = OFF").map_err(|e| format!("PRAGMA synchronous: {}", e))?;
+            }
+        }
+        return Ok(db);
+    }
+    create_db(dir, tabs, wal)
+}
+
+fn copy_tree(src: &std::path::Path, dst: &std::path::Path) -> std::io::Result<()> {
+    std::fs::create_dir_all(dst)?;
+    for e in std::fs::read_dir(src)? {
+        let e = e?;
+        let p = e.path();
+        let d = dst.join(e.file_name());
+        if p.is_dir() {
+            copy_tree(&p, &d)?;
+        } else {
+            std::fs::copy(&p, &d)?;
+        }
+    }
+    Ok(())
+}
+
+fn create_db(dir: &std::path::Path, tabs: &BTreeSet<u8>, wal: bool) -> Result<Database, String> {
     let db = match catch(|| Database::create(dir)) {
         Ok(Ok(d)) => d,
         Ok(Err(e)) => return Err(format!("create: {:#}", e)),
@@ -943,7 +993,7 @@ struct CaseResult {
 fn run_det(case: &Case, dir: &std::path::Path) -> Result<CaseResult, String> {
     let _ = std::fs::remove_dir_all(dir);
     let tabs = case.tabs();
-    let root = open_db(dir, &tabs, case.wal)?;
+    let root = open_db(dir, &tabs, case.wal, true)?;
     let handles: Vec<Database> = (0..case.progs.len()).map(|_| root.clone()).collect();
     let clock = AtomicU64::new(1);
     let mut runners: Vec<Runner> = handles.iter().enumerate().map(|(h, d)| Runner::new(h, d, &clock)).collect();
@@ -976,10 +1026,15 @@ fn run_det(case: &Case, dir: &std::path::Path) -> Result<CaseResult, String> {
     let viols = Oracle::new(&hist, true).check();
     let res = CaseResult { viols, exercised: exercised(&hist), errors: hist.errors.len(), reads: hist.reads.len(), stmts };
     drop(handles);
-    drop(root);
+    // no clean close (it would msync every file: tens of ms each on a busy disk); the worker process is recycled
+    // before the leaked mappings add up
+    std::mem::forget(root);
+    DB_OPENS.fetch_add(1, Ordering::Relaxed);
     let _ = std::fs::remove_dir_all(dir);
     Ok(res)
 }
+
+static DB_OPENS: AtomicU64 = AtomicU64::new(0);
 
 // ------------------------------------------------------------------------------------------------ program library
 
@@ -1200,6 +1255,8 @@ impl DetStream {
             }
         }
         rng.shuffle(&mut base);
+        // two-handle sets first: the systematic writer x reader x path grid is covered before the big three-handle sets
+        base.sort_by_key(|set| set.len());
         DetStream { rng, quick, base, set_no: 0, pending: Default::default(), sets_emitted: 0, sets_exhaustive: 0 }
     }
     fn refill(&mut self) {
@@ -1371,7 +1428,7 @@ fn run_threaded(seed: u64, dir: &std::path::Path) -> Result<(ThrResult, J), Stri
     let case = Case { progs, sched: vec![], wal };
     let _ = std::fs::remove_dir_all(dir);
     let tabs = case.tabs();
-    let root = open_db(dir, &tabs, wal)?;
+    let root = open_db(dir, &tabs, wal, false)?;
     let clock = Arc::new(AtomicU64::new(1));
     // yield hook: perturbs and records the order of hook events; tracks the commit window
     let in_window: Arc<Vec<AtomicBool>> = Arc::new((0..8).map(|_| AtomicBool::new(false)).collect());
@@ -1490,7 +1547,8 @@ fn run_threaded(seed: u64, dir: &std::path::Path) -> Result<(ThrResult, J), Stri
     let stmts = case.progs.iter().map(|p| p.len()).sum();
     let descr = json!({"threads": n, "wal": wal, "programs": case.progs.iter().enumerate().map(|(h, p)| p.iter().enumerate().map(|(si, st)| st.sql(&case.val_of(h, si))).collect::<Vec<_>>()).collect::<Vec<_>>()});
     let res = ThrResult { viols, fingerprint: fp, hook_fingerprint: hfp, txn_overlap, commit_window_overlap: overlap.load(Ordering::SeqCst), exercised: exercised(&hist), stmts, hook_events: hl.len() as u64 };
-    drop(root);
+    std::mem::forget(root);
+    DB_OPENS.fetch_add(1, Ordering::Relaxed);
     let _ = std::fs::remove_dir_all(dir);
     Ok((res, descr))
 }
@@ -1514,6 +1572,7 @@ fn worker_main(a: &Args) -> i32 {
     let t0 = Instant::now();
     let scratch = Scratch::new(&format!("c08w{}", phase));
     let mut seen_sigs: BTreeSet<String> = BTreeSet::new();
+    let mut recycle = false;
     if phase == "det" {
         let mut stream = DetStream::new(a.seed, quick);
         let mut idx = 0u64;
@@ -1551,8 +1610,12 @@ fn worker_main(a: &Args) -> i32 {
             if only {
                 break;
             }
+            if DB_OPENS.load(Ordering::Relaxed) > 700 {
+                recycle = true;
+                break;
+            }
         }
-        emit(json!({"done": true, "next": idx, "sets": stream.sets_emitted, "sets_exhaustive": stream.sets_exhaustive}));
+        emit(json!({"done": true, "next": idx, "recycle": recycle, "sets": stream.sets_emitted, "sets_exhaustive": stream.sets_exhaustive}));
     } else {
         let mut idx = start;
         loop {
@@ -1581,8 +1644,12 @@ fn worker_main(a: &Args) -> i32 {
             if only {
                 break;
             }
+            if DB_OPENS.load(Ordering::Relaxed) > 700 {
+                recycle = true;
+                break;
+            }
         }
-        emit(json!({"done": true, "next": idx}));
+        emit(json!({"done": true, "next": idx, "recycle": recycle}));
     }
     0
 }
@@ -1677,6 +1744,11 @@ pub fn cleanup_worker_scratch(prefix: &str) {
 }
 
 pub fn run(a: &Args) -> i32 {
+    if cfg!(miri) {
+        // Database needs mmap'ed files and the drivers need worker subprocesses: neither exists under Miri
+        println!("INCONCLUSIVE property=C08 reason=not runnable under Miri (mmap, subprocesses)");
+        return 2;
+    }
     if a.rest.first().map(|s| s == "worker").unwrap_or(false) {
         return worker_main(a);
     }
@@ -1693,6 +1765,7 @@ pub fn run(a: &Args) -> i32 {
     let mut fps: BTreeSet<u64> = BTreeSet::new();
     let mut hook_fps: BTreeSet<u64> = BTreeSet::new();
     let mut sig_counts: BTreeMap<String, u64> = BTreeMap::new();
+    let mut sets_max: (u64, u64) = (0, 0);
     for phase in ["det", "thr"] {
         let total_budget = if phase == "det" { det_budget } else { thr_budget };
         let phase_start = Instant::now();
@@ -1705,7 +1778,10 @@ pub fn run(a: &Args) -> i32 {
             }
             let args = vec![phase.to_string(), start_idx.to_string(), format!("{:.1}", remaining)];
             let mut next_idx = start_idx;
+            let mut recycle = false;
             let outcome = {
+                let recycle = &mut recycle;
+                let sets_max = &mut sets_max;
                 let ctx = &mut ctx;
                 let minimal = &mut minimal;
                 let fps = &mut fps;
@@ -1715,9 +1791,11 @@ pub fn run(a: &Args) -> i32 {
                 supervise("C08", &a.tier, a.seed, &args, Duration::from_secs(stall), &mut |v: &J| {
                     if let Some(n) = v.get("next").and_then(|n| n.as_u64()) {
                         *next_idx = n;
+                        *recycle = v["recycle"].as_bool().unwrap_or(false);
                         if let Some(s) = v.get("sets").and_then(|s| s.as_u64()) {
-                            ctx.count("det_program_sets", s);
-                            ctx.count("det_program_sets_all_merges_enumerated", v["sets_exhaustive"].as_u64().unwrap_or(0));
+                            // cumulative over the case stream (a restarted worker regenerates the stream)
+                            sets_max.0 = sets_max.0.max(s);
+                            sets_max.1 = sets_max.1.max(v["sets_exhaustive"].as_u64().unwrap_or(0));
                         }
                         return;
                     }
@@ -1776,6 +1854,11 @@ pub fn run(a: &Args) -> i32 {
                 })
             };
             match outcome {
+                Outcome::Finished if recycle => {
+                    // the worker retired itself (leaked mappings); the next one continues where it stopped
+                    start_idx = next_idx;
+                    continue;
+                }
                 Outcome::Finished => break,
                 Outcome::Stalled(idx) | Outcome::Died(_, idx) => {
                     let died = if let Outcome::Died(s, _) = &outcome { Some(s.clone()) } else { None };
@@ -1810,6 +1893,8 @@ pub fn run(a: &Args) -> i32 {
         }
     }
     cleanup_worker_scratch("c08w");
+    ctx.count("det_program_sets", sets_max.0);
+    ctx.count("det_program_sets_all_merges_enumerated", sets_max.1);
     ctx.count("distinct_interleavings_observed", fps.len() as u64);
     ctx.count("thr_distinct_yield_hook_orders", hook_fps.len() as u64);
     ctx.extra.insert("signature_counts".into(), json!(sig_counts));
